@@ -41,7 +41,7 @@ LEAN = ["Ymq.Props.C19", "Ymq.Props.C19Dense"] + bm.LEAN + wied.LEAN
 AUDIT = "Ymq.Audit.C19"
 THEOREMS = ["Ymq.C19." + t for t in (
     "crt_symmetric crt_sparse_symmetric perm_sign snf_ops_unimodular_partial snf_diag snf_reduce_cols_iso_partial echelon_det_partial det_exact_partial crt_symmetric_closed "
-    "echelon_total echelon_det det_exact_total_partial").split()] + bm.THEOREMS + wied.THEOREMS
+    "echelon_total echelon_det det_exact_total_partial mg_redc_wide echelon_submul_montgomery_partial").split()] + bm.THEOREMS + wied.THEOREMS
 HYPOTHESES = ["inv_mod64_spec = Ymq.IntMat.InvSpec (theorems crt_symmetric, crt_sparse_symmetric, det_exact_partial): arith::inv_mod64(a, p) on u64 "
               "arguments returns Some(i) with i < p and a*i = 1 (mod p) whenever p > 1 and gcd(a, p) = 1; discharged for the model invMod64 that the "
               "driver runs by theorem invMod64_spec of property C08 (invMod64_invSpec, crt_symmetric_closed has no hypothesis left)"]
@@ -2271,7 +2271,9 @@ MODELLED = [
     "GFpEchelonBuilder::{new, add (sequential and 8-row blocked elimination), div, submul, submul_n, det incl. the permutation-sign "
     "cycle walk} in Montgomery form on top of the C07 word model; det_matz prime walk and CRT; CRTDetBuilder::det with its shared echelons",
     "second model EchP of GFpEchelonBuilder::{add, det} in plain residues with sequential elimination (object of echelon_det_partial), answered "
-    "by the driver through follow-up requests im_echelon_plain / im_detp_plain and compared with the implementation",
+    "by the driver through follow-up requests im_echelon_plain / im_detp_plain and compared with the implementation; total for a prime "
+    "p < 2^63 (echelon_total, echelon_det); GFpEchelonBuilder::add on an arbitrary stored state (im_ech_raw: the slice/position/swap "
+    "panic sites of add), the block path restricted to p < 2^62 (fix a30f559), CRTDetBuilder::det with a rejected last row (fix 3ac969c)",
     "candidate selection of intdense::compute_lattice_index (gcd accumulation, window widening, m1..m2 scan, uniqueness) in exact "
     "rational arithmetic; complete for single-column matrices",
     "SmithNormalForm::{new (dense conversion), reduce, reduce_rows, reduce_cols, eliminate_block, eliminate, submul_n, normalize, "
